@@ -62,6 +62,56 @@ def history(rng, res, kinds_pool):
         m.close()
 
 
+def page_reuse_history(rng, res):
+    """pages that were deallocated (temporary pages of hash joins, emptied index nodes) and handed out again to tables
+    before a clean shutdown: after the reopen nothing may claim them a second time"""
+    from sqlgen import Val
+    m = Mirror(rng, mem_kb=rng.choice([1200, 4000]))
+    try:
+        if not m.open():
+            return m.fails
+        def fill(name, n, wide):
+            for i in range(n):
+                vals = m.rnd_vals(name, small=False)
+                vals = [Val("s", (v.v + b"r" * 250)[:wide + i % 30]) if v.kind == "s" else v for v in vals]
+                m.insert(name, vals)
+        for name in ("ja", "jb"):
+            m.create(name, via_sql=True, ncols=2, types=["i", "s"], colnames=[name + "k", name + "v"])
+            fill(name, rng.choice([120, 200]), 120)
+        for _ in range(rng.randrange(1, 4)):
+            # the build side spans several temporary pages, all deallocated when the join ends
+            m.db.sql("SELECT ja.jav, jb.jbv FROM ja JOIN jb ON ja.jak = jb.jbk;", timeout=60)
+        if rng.random() < 0.5:
+            m.delete("ja")
+        m.create("jc", via_sql=rng.random() < 0.5, ncols=2, types=["i", "s"], kinds_pool="ns", colnames=["jck", "jcv"])
+        fill("jc", rng.choice([40, 80]), 200)
+        for cycle in range(2):
+            before = {n: m.db.cmd("scan " + n) for n in m.tables}
+            if not m.restart(clean=True):
+                break
+            for n in m.tables:
+                if m.db.cmd("scan " + n) != before[n]:
+                    m.fail("scan " + n, "rows or row ids of %s changed across a clean shutdown/reopen (cycle %d)" % (n, cycle + 1))
+                m.verify(n, nq=2, what="page reuse, after clean restart %d" % (cycle + 1))
+            if m.fails or m.db.dead:
+                break
+            # allocations after the reopen
+            m.create("jd%d" % cycle, via_sql=True, ncols=2, types=["i", "s"], colnames=["jdk", "jdv"])
+            fill("jd%d" % cycle, 30, 200)
+            fill("jc", 20, 200)
+            for n in m.tables:
+                m.verify(n, nq=1, what="page reuse, after allocations following restart %d" % (cycle + 1))
+                m.verify_index(n, what="page reuse, after allocations following restart %d" % (cycle + 1))
+            if m.fails or m.db.dead:
+                break
+        if m.db.dead and not m.fails:
+            m.fail(m.db.log[-1], "engine stopped answering: " + m.db.dead)
+        res.note_case("page-reuse|%d" % rng.randrange(10**6), True)
+        return m.fails
+    finally:
+        m.close()
+
+
 def btree_probe(res):
     """known finding F-BTREE-RESTART: a B-tree index after a crash restart followed by a clean restart"""
     rng = random.Random(5)
@@ -96,6 +146,10 @@ def run(res, replay=None):
         return
     rng = random.Random(res.seed)
     btree_probe(res)
+    for i in range(2 if res.tier == "quick" else 20):
+        for d, w in page_reuse_history(rng, res):
+            if len(res.oracle_failures) < 5:
+                res.oracle_failures.append((d, w))
     n = 24 if res.tier == "quick" else 250
     for i in range(n):
         for d, w in history(rng, res, "nsb" if i % 3 else "ns"):
